@@ -528,4 +528,150 @@ def Cursor.prev (c : Cursor) (root : Node) : Cursor × Option Elt :=
       prevLoop h (ps.length + 2) c n
   | some n => prevLoop h (c.parents.length + h + 2) c n
 
+/-! ## registered cursors (`BTree.cursors`, `register_cursor`, `_check_mutable_and_park`) -/
+
+/-- a tree handle together with its cursors; the flag says whether the cursor is currently registered
+(`with tree.cursor() as c:` registers on entry and deregisters on exit) -/
+structure TreeC where
+  tree : Tree
+  cursors : List (Bool × Cursor)
+
+/-- `for cursor in self.cursors: cursor.park()` -/
+def TreeC.parkAll (tc : TreeC) : TreeC :=
+  { tc with cursors := tc.cursors.map fun bc => if bc.1 then (bc.1, bc.2.park) else bc }
+
+/-- `insert_element`: `_check_mutable_and_park` raises `Immutable` before parking anything -/
+def TreeC.insert (tc : TreeC) (e : Elt) : TreeC × Outcome (Option Elt) :=
+  if tc.tree.immutable then (tc, .immutableErr)
+  else ({ tc.parkAll with tree := (tc.tree.insert e).1 }, (tc.tree.insert e).2)
+
+/-- `_delete` -/
+def TreeC.delete (tc : TreeC) (key : Nat) (exact : Option Elt) : TreeC × Outcome (Option Elt) :=
+  if tc.tree.immutable then (tc, .immutableErr)
+  else ({ tc.parkAll with tree := (tc.tree.delete key exact).1 }, (tc.tree.delete key exact).2)
+
+/-- `cursor()` + `register_cursor`: returns the index of the new cursor -/
+def TreeC.register (tc : TreeC) : TreeC × Nat :=
+  ({ tc with cursors := tc.cursors ++ [(true, {})] }, tc.cursors.length)
+
+/-- `deregister_cursor` -/
+def TreeC.deregister (tc : TreeC) (i : Nat) : TreeC :=
+  match tc.cursors[i]? with
+  | some (_, c) => { tc with cursors := tc.cursors.set i (false, c) }
+  | none => tc
+
+/-- apply a cursor method that returns an element -/
+def TreeC.withCursor (tc : TreeC) (i : Nat) (f : Cursor → Node → Cursor × Option Elt) : TreeC × Option Elt :=
+  match tc.cursors[i]? with
+  | some (b, c) => let r := f c tc.tree.root; ({ tc with cursors := tc.cursors.set i (b, r.1) }, r.2)
+  | none => (tc, none)
+
+def TreeC.next (tc : TreeC) (i : Nat) : TreeC × Option Elt := tc.withCursor i Cursor.next
+def TreeC.prev (tc : TreeC) (i : Nat) : TreeC × Option Elt := tc.withCursor i Cursor.prev
+
+/-- apply a cursor method that only repositions -/
+def TreeC.setCursor (tc : TreeC) (i : Nat) (f : Cursor → Cursor) : TreeC :=
+  match tc.cursors[i]? with
+  | some (b, c) => { tc with cursors := tc.cursors.set i (b, f c) }
+  | none => tc
+
+/-! ## the mapping and set API (`BTreeDict`, `BTreeSet` and the `MutableMapping` / `MutableSet` mixins) -/
+
+/-- `__iter__`: `with self.cursor() as cursor: while True: elt = cursor.next(); if elt is None: break; yield …`
+(the loop without interleaved mutations; `fuel` bounds the number of elements) -/
+def iterLoop (root : Node) : Nat → Cursor → List Elt
+  | 0, _ => []
+  | f + 1, c =>
+    match c.next root with
+    | (c', some e) => e :: iterLoop root f c'
+    | (_, none) => []
+
+def Tree.iter (tr : Tree) : List Elt := iterLoop tr.root (tr.size + 1) {}
+
+inductive ApiErr where
+  | keyError | immutable | valueError | indexError
+  deriving DecidableEq
+
+def apiErrOf {α} : Outcome α → Except ApiErr α
+  | .ok a => .ok a
+  | .immutableErr => .error .immutable
+  | .valueError => .error .valueError
+  | .indexError => .error .indexError
+
+namespace Dict
+
+/-- `d[key]` -/
+def getitem (tr : Tree) (key : Nat) : Except ApiErr Nat :=
+  match tr.get key with
+  | some e => .ok e.2
+  | none => .error .keyError
+
+/-- `d[key] = value` -/
+def setitem (tc : TreeC) (key value : Nat) : TreeC × Except ApiErr Unit :=
+  let r := tc.insert (key, value)
+  (r.1, (apiErrOf r.2).map fun _ => ())
+
+/-- `del d[key]` -/
+def delitem (tc : TreeC) (key : Nat) : TreeC × Except ApiErr Unit :=
+  let r := tc.delete key none
+  match apiErrOf r.2 with
+  | .ok (some _) => (r.1, .ok ())
+  | .ok none => (r.1, .error .keyError)
+  | .error e => (r.1, .error e)
+
+/-- `key in d` (`Mapping.__contains__`: `try: self[key]` / `except KeyError`) -/
+def contains (tr : Tree) (key : Nat) : Bool := (getitem tr key).toBool
+
+/-- `d.get(key)` (`Mapping.get`) -/
+def get (tr : Tree) (key : Nat) : Option Nat := (getitem tr key).toOption
+
+/-- `d.pop(key)` (`MutableMapping.pop` without default: `value = self[key]`, then `del self[key]`) -/
+def pop (tc : TreeC) (key : Nat) : TreeC × Except ApiErr Nat :=
+  match getitem tc.tree key with
+  | .error e => (tc, .error e)
+  | .ok v =>
+    let r := delitem tc key
+    (r.1, r.2.map fun _ => v)
+
+/-- `len(d)` -/
+def len (tr : Tree) : Nat := tr.size
+
+/-- `list(d)` / `d.keys()` -/
+def keys (tr : Tree) : List Nat := tr.iter.map (·.1)
+
+/-- `d.items()` (`ItemsView.__iter__`: `for key in self._mapping: yield (key, self._mapping[key])`) -/
+def items (tr : Tree) : List (Nat × Nat) :=
+  (keys tr).filterMap fun k => (get tr k).map fun v => (k, v)
+
+/-- `d.values()` -/
+def values (tr : Tree) : List Nat := (keys tr).filterMap (get tr)
+
+end Dict
+
+namespace SetApi
+
+/-- `x in s` -/
+def contains (tr : Tree) (key : Nat) : Bool := (tr.get key).isSome
+
+/-- `s.add(x)` -/
+def add (tc : TreeC) (key : Nat) : TreeC × Except ApiErr Unit :=
+  let r := tc.insert (key, 0)
+  (r.1, (apiErrOf r.2).map fun _ => ())
+
+/-- `s.discard(x)` -/
+def discard (tc : TreeC) (key : Nat) : TreeC × Except ApiErr Unit :=
+  let r := tc.delete key none
+  (r.1, (apiErrOf r.2).map fun _ => ())
+
+/-- `s.remove(x)` (`MutableSet.remove`: `if value not in self: raise KeyError(value)`, then `discard`) -/
+def remove (tc : TreeC) (key : Nat) : TreeC × Except ApiErr Unit :=
+  if contains tc.tree key then discard tc key else (tc, .error .keyError)
+
+def len (tr : Tree) : Nat := tr.size
+
+/-- `list(s)` -/
+def members (tr : Tree) : List Nat := tr.iter.map (·.1)
+
+end SetApi
+
 end Model.BTree
